@@ -44,6 +44,13 @@ func genC13(t *rapid.T) C13Scn {
 		}
 		s.Clients = append(s.Clients, ops)
 	}
+	if rapid.IntRange(0, 4).Draw(t, "focus-remote-cancel") == 0 {
+		// a remote unit is submitted while the executing node cannot be reached (pending, start retried in the background),
+		// cancelled, and then the node becomes reachable
+		s.Clients = append(s.Clients, []C13Op{{K: "cut", U: -1}, {K: "submit", Kind: "remote-long", U: -1},
+			{K: rapid.SampledFrom([]string{"cancel", "cancel", "release"}).Draw(t, "focus-op"), U: 999},
+			{K: "sleep", U: -1, Ms: rapid.SampledFrom([]int{100, 700}).Draw(t, "focus-ms")}, {K: "heal", U: -1}})
+	}
 	return s
 }
 
@@ -51,7 +58,7 @@ func TestC13(t *testing.T) {
 	st := vx.NewStats("C13", "lifecycle", "two in-process nodes (the second executes remote work); 1-4 concurrent control clients with 2-9 operations each from {submit an in-process unit short/long, a real command unit short / long / ignoring SIGINT, "+
 		"a remote unit to the second node or to an absent node; status; list; cancel; release; force-release; results; sleep; hold the unit's status lock for 0.1-0.9 s; cut / heal the link; restart the submitter's work subsystem} on the k-th known unit or "+
 		"unknown IDs, or 8 clients submitting at once; oracle: (hook) every rewrite of every status record, totally ordered by the record lock: stage pending < running < finished never decreases, Succeeded stays Succeeded with the same size, size does not shrink "+
-		"while running; processes of cancelled/released command units are gone within 25 s; released units are absent from list/status/disk; acknowledged IDs are pairwise distinct; non-trivial = a cancel or release of an unfinished unit, or >= 4 submits")
+		"while running; processes of cancelled/released command units are gone within 25 s; a unit recorded as locally cancelled does not (go on to) run on the executing node; released units are absent from list/status/disk; acknowledged IDs are pairwise distinct; non-trivial = a cancel or release of an unfinished unit, or >= 4 submits")
 	defer st.Flush()
 	r := &vx.Runner{Name: "C13", Timeout: 600 * time.Second, Recycle: 10}
 	defer r.Close()
